@@ -65,14 +65,6 @@ def reachable_tensors(obj: Any, path: str = "", seen=None, depth: int = 0) -> It
                 continue
             yield from reachable_tensors(v, f"{path}.{k}", seen, depth + 1)
         return
-    if isinstance(obj, torch.nn.Module):
-        # what a checkpoint of the receiver would contain (non-persistent caches are not part of it)
-        try:
-            sig["module:state_dict_keys"] = tuple(sorted(obj.state_dict().keys()))
-            sig["module:parameter_names"] = tuple(sorted(n for n, _ in obj.named_parameters()))
-            sig["module:training"] = bool(obj.training)
-        except Exception as e:  # noqa: BLE001
-            sig["module:state_dict_keys"] = f"raised {type(e).__name__}"
     slots = getattr(type(obj), "__slots__", None)
     if slots:
         for s in slots:
@@ -127,6 +119,17 @@ def state_signature(obj: Any) -> Dict[str, Any]:
         for k, v in d.items():
             if isinstance(v, (bool, int, float, str, tuple, type(None))) and not isinstance(v, torch.Tensor):
                 sig["attr:" + k] = v
+    # scalar attributes of the grids an image / batch / transform holds (e.g. the align_corners flag)
+    gv = d.get("_grid") if isinstance(d, dict) else None
+    grids = [] if gv is None else (list(gv) if isinstance(gv, (tuple, list)) else [gv])
+    for i, gobj in enumerate(grids):
+        for k, v in getattr(gobj, "__dict__", {}).items():
+            if isinstance(v, (bool, int, float, str, type(None))):
+                sig[f"grid[{i}].attr:{k}"] = v
+        for sname in getattr(type(gobj), "__slots__", ()) or ():
+            v = getattr(gobj, sname, None)
+            if isinstance(v, (bool, int, float, str, type(None))):
+                sig[f"grid[{i}].attr:{sname}"] = v
     if isinstance(obj, torch.nn.Module):
         # what a checkpoint of the receiver would contain (non-persistent caches are not part of it)
         try:
